@@ -256,9 +256,17 @@ fn exec_udp(line: &str, t: &[&str], rec: &mut Recorder) {
     if !run.all_sent_to_server {
         rec.fail(idx, "a transmission went to an address other than the queried server", "");
     }
-    // skipped-vs-failed census (the property says "skipped"; the code fails the query on some kinds)
+    // skipped-vs-failed census: the property says non-matching datagrams are "skipped"; the code ends the
+    // transmission (and with it the query) on some kinds coming from the queried address.  Counted, see
+    // checks/C16.json "partial" and theorem examineD_fail_iff; never accepted, which is what the oracle demands.
     if run.outcome == "err" {
-        rec.stat("udp.err");
+        for (sc, n) in c.scripts.iter().zip(&run.consumed) {
+            if *n >= 1 && *n < 3 {
+                if let Some(why @ ("unparsable" | "not a response" | "letter case differs with case randomisation on")) = udp::mismatch(&c, &sc[*n - 1]) {
+                    rec.stat(&format!("udp.query-ended-by-nonmatching-datagram.{}", why.replace(' ', "-")));
+                }
+            }
+        }
     }
     // non-trivial: something forged was examined, or a reply was accepted after at least one other datagram
     let forged_examined = c.scripts.iter().zip(&run.consumed).any(|(sc, n)| sc.iter().take(*n).any(|e| udp::mismatch(&c, e).is_some()));
